@@ -747,6 +747,7 @@ func originVar(o types.Object) types.Object {
 // literals do not count: they build fresh values).
 func computeWritten(files []*ast.File, info *types.Info) map[types.Object]bool {
 	w := map[types.Object]bool{}
+	captured := computeCaptured(files, info)
 	var mark func(e ast.Expr)
 	mark = func(e ast.Expr) {
 		switch x := e.(type) {
@@ -763,7 +764,7 @@ func computeWritten(files []*ast.File, info *types.Info) map[types.Object]bool {
 				w[v] = true
 			}
 		case *ast.Ident:
-			if v, ok := info.Uses[x].(*types.Var); ok && !v.IsField() && v.Parent() == v.Pkg().Scope() {
+			if v, ok := info.Uses[x].(*types.Var); ok && !v.IsField() && v.Pkg() != nil && (v.Parent() == v.Pkg().Scope() || captured[v]) {
 				w[v] = true
 			}
 		case *ast.IndexExpr:
@@ -801,6 +802,40 @@ func computeWritten(files []*ast.File, info *types.Info) map[types.Object]bool {
 		})
 	}
 	return w
+}
+
+// computeCaptured returns the local variables (parameters and named results included) that are used inside a
+// function literal which does not contain their declaration: the only locals two goroutines can share without
+// going through a field, a package variable, a map or a slice. Those that are also written after their
+// declaration are tracked by the access rewrite like package variables.
+func computeCaptured(files []*ast.File, info *types.Info) map[*types.Var]bool {
+	c := map[*types.Var]bool{}
+	for _, f := range files {
+		var lits []*ast.FuncLit
+		ast.Inspect(f, func(n ast.Node) bool {
+			if fl, ok := n.(*ast.FuncLit); ok {
+				lits = append(lits, fl)
+			}
+			return true
+		})
+		for _, fl := range lits {
+			ast.Inspect(fl.Body, func(n ast.Node) bool {
+				id, ok := n.(*ast.Ident)
+				if !ok {
+					return true
+				}
+				v, ok := info.Uses[id].(*types.Var)
+				if !ok || v.IsField() || v.Pkg() == nil || v.Parent() == v.Pkg().Scope() || v.Parent() == nil {
+					return true
+				}
+				if v.Pos() < fl.Pos() || v.Pos() >= fl.End() {
+					c[v] = true
+				}
+				return true
+			})
+		}
+	}
+	return c
 }
 
 func isSyncLike(t types.Type) bool {
@@ -902,6 +937,14 @@ func (r *rewriter) rewriteAccess() {
 			}
 		case *ast.IncDecStmt:
 			markL(x.X)
+		case *ast.RangeStmt:
+			if x.Tok == token.ASSIGN {
+				for _, l := range []ast.Expr{x.Key, x.Value} {
+					if l != nil {
+						markL(l)
+					}
+				}
+			}
 		case *ast.UnaryExpr:
 			if x.Op == token.AND {
 				lhs[strip(x.X)] = true
@@ -1024,8 +1067,11 @@ func (r *rewriter) rewriteAccess() {
 				return true
 			}
 			v, ok := r.info.Uses[n].(*types.Var)
-			if !ok || v.IsField() || v.Pkg() == nil || v.Parent() != v.Pkg().Scope() || !r.written[v] {
+			if !ok || v.IsField() || v.Pkg() == nil || !r.written[v] {
 				return true
+			}
+			if v.Parent() != v.Pkg().Scope() {
+				r.stats["access-captured-local"]++
 			}
 			if p, isSel := c.Parent().(*ast.SelectorExpr); isSel && p.Sel == n {
 				return true
